@@ -240,6 +240,15 @@ impl<'a> Ent<'a> {
         }
         a
     }
+    /// an even address that can be a branch / vector target: RAM, DRAM and (less often) the vector area,
+    /// including address 0 (a vector whose low 24 bits are zero is a legitimate value)
+    pub fn jump_target(&mut self) -> u32 {
+        match self.below(10) {
+            0 => self.pick(&[0x000000u32, 0x000002, 0x0000fe, 0x000004, 0x000080]),
+            1 => 2 * self.below(0x80),
+            _ => self.data_addr(&[Region::Ram, Region::Dram], 2, 2),
+        }
+    }
     pub fn bus_cfg(&mut self) -> BusCfg {
         match self.below(4) {
             0 => BusCfg::RUN_DEFAULT,
